@@ -31,6 +31,7 @@ def run_history(pattern, shape, nmax, calls, method, crop, bc, prefill, shared):
     c = pattern.get_crop_size()
     res = []
     wdt = np.float64 if 'f64' in method else np.float32        # working buffers as allocated for float64 / 32-bit integer data
+    ups = 4 if 'ups' in method else False
     if shared:
         crop_bufs = np.full((bc, 2 * c, 2 * c), prefill, dtype=wdt)
         frame_buf = np.full(shape, prefill, dtype=wdt)
@@ -46,16 +47,16 @@ def run_history(pattern, shape, nmax, calls, method, crop, bc, prefill, shared):
         if shared:
             outs = tuple(o[:n] for o in outs_all)
             if method.startswith('fast'):
-                cl.run_fast(pattern, frame, call['peaks'], crop_function=CROPS[crop], crop_bufs=crop_bufs, outs=outs)
+                cl.run_fast(pattern, frame, call['peaks'], crop_function=CROPS[crop], crop_bufs=crop_bufs, outs=outs, upsample=ups)
             else:
-                cl.run_full(pattern, frame, call['peaks'], bc=bc, crop_function=CROPS[crop], frame_buf=frame_buf, outs=outs)
+                cl.run_full(pattern, frame, call['peaks'], bc=bc, crop_function=CROPS[crop], frame_buf=frame_buf, outs=outs, upsample=ups)
             res.append(tuple(o.copy() for o in outs))
         else:
             p2 = cl.pattern_from_desc(pattern._verif_desc)
             if method.startswith('fast'):
-                outs = cl.run_fast(p2, frame, call['peaks'], bc=bc, crop_function=CROPS[crop], dtype=wdt)
+                outs = cl.run_fast(p2, frame, call['peaks'], bc=bc, crop_function=CROPS[crop], dtype=wdt, upsample=ups)
             else:
-                outs = cl.run_full(p2, frame, call['peaks'], bc=bc, crop_function=CROPS[crop], dtype=wdt)
+                outs = cl.run_full(p2, frame, call['peaks'], bc=bc, crop_function=CROPS[crop], dtype=wdt, upsample=ups)
             res.append(outs)
     return res
 
@@ -64,6 +65,18 @@ def history_failure(pattern, shape, nmax, calls, method, crop, bc, prefill):
     try:
         a = run_history(pattern, shape, nmax, calls, method, crop, bc, prefill, True)
         b = run_history(pattern, shape, nmax, calls, method, crop, bc, prefill, False)
+    except Exception as e:  # noqa
+        return 'raised %s: %s' % (type(e).__name__, e), None
+    # the last call once more with every peak on its own in fresh buffers: what was computed for the peaks before it in the same call (a
+    # spectrum or buffer shared by all peaks of a frame) must not matter either
+    try:
+        last = calls[-1]
+        solo = [run_history(pattern, shape, 1, [{'ints': last['ints'], 'kind': last.get('kind'), 'peaks': [p]}], method.replace('-strided', ''), crop, 1, prefill, False)[0] for p in last['peaks']]
+        for i, so in enumerate(solo):
+            for name, u, v in zip(('centres', 'refineds', 'heights', 'elevations'), b[-1], so):
+                if not np.allclose(np.asarray(u[i], dtype=float), np.asarray(v[0], dtype=float), rtol=1e-5, atol=1e-5 * (1.0 + float(np.abs(np.nan_to_num(np.asarray(so[2], dtype=float))).max())), equal_nan=True):
+                    return ('call #%d (%s, %s back-end): %s of peak %s after the other peaks of the same call: %s, on its own: %s'
+                            % (len(calls) - 1, method, crop, name, tuple(last['peaks'][i]), np.asarray(u[i]).tolist(), np.asarray(v[0]).tolist())), len(calls) - 1
     except Exception as e:  # noqa
         return 'raised %s: %s' % (type(e).__name__, e), None
     for k, (x, y) in enumerate(zip(a, b)):
@@ -131,6 +144,31 @@ def requery_failure(desc, order):
     return None
 
 
+def batch_twice_failure(seed):
+    """the batch entry points called twice (full then fast then full) on ONE stack object: identical results, stack unchanged; for every dtype
+    and memory layout of the stack"""
+    from libertem_blobfinder.common import correlation as cc
+    r = np.random.default_rng(seed)
+    pattern, desc = cl.rand_pattern(r, cmax=4, kinds=['Circular', 'RadialGradient', 'BackgroundSubtraction'])
+    c = pattern.get_crop_size()
+    fy, fx = int(r.integers(2 * c + 4, 30)), int(r.integers(2 * c + 4, 30))
+    dt = str(r.choice(['float32', 'float32', 'float64', 'uint16', 'int32']))
+    stack = np.ascontiguousarray(r.poisson(5.0, size=(3, fy, fx)).astype(dt))
+    peaks = np.array(cl.rand_peaks(r, fy, fx, c, int(r.integers(1, 4)), where='inside'))
+    keep = stack.copy()
+    res = []
+    for name, fn in (('process_frames_full', cc.process_frames_full), ('process_frames_fast', cc.process_frames_fast), ('process_frames_full', cc.process_frames_full), ('process_frames_fast', cc.process_frames_fast)):
+        out = fn(pattern, stack, peaks)
+        if not np.array_equal(stack, keep):
+            return '%s modified the %s stack passed in (frame %d changed)' % (name, dt, int(np.argwhere((stack != keep).any(axis=(1, 2)))[0][0]))
+        res.append((name, out))
+    for (n1, o1), (n2, o2) in ((res[0], res[2]), (res[1], res[3])):
+        for u, v in zip(o1, o2):
+            if not np.array_equal(u, v, equal_nan=True):
+                return 'the second call of %s on the same %s stack gives different results than the first' % (n1, dt)
+    return None
+
+
 def mk_replay(desc, shape, nmax, calls, method, crop, bc, prefill, fail):
     return {'kind': 'history', 'call': 'process_frame_%s x %d' % (method.split('-')[0] + (' (strided output views)' if 'strided' in method else ''), len(calls)),
             'args': {'pattern': desc, 'shape': list(shape), 'nmax': nmax, 'method': method, 'crop': crop, 'buffer_count': bc, 'prefill': prefill,
@@ -142,6 +180,13 @@ def replay(body):
     if 'frame_ints' in body.get('args', {}):
         return cl.replay_case(body, 'C09')          # a failing input recorded by the model correspondence (cl.model_check)
     a = body['args']
+    if 'batch_twice_seed' in a:
+        fail = batch_twice_failure(a['batch_twice_seed'])
+        print(json.dumps({'failure_now': fail}, indent=1))
+        if fail:
+            print('VIOLATION property=C09 replay=(given)')
+            return 1
+        return 0
     if 'shapes' in a and 'at' in a:
         fail = requery_failure(a['pattern'], [tuple(x) for x in a['shapes']])
         print(json.dumps({'failure_now': fail}, indent=1))
@@ -194,7 +239,7 @@ def run(ctx):
         ncalls = int(rng.integers(1, 7))
         pattern, desc, shape, nmax, calls = gen_history(rng, ncalls, cmax=4 if h % 2 else 3, smax=24 if h % 2 else 11)
         pattern._verif_desc = desc
-        method = ('fast' if h % 3 != 2 else 'full') + ('-strided' if h % 4 == 3 else '') + ('-f64' if h % 5 == 2 else '')
+        method = ('fast' if h % 3 != 2 else 'full') + ('-strided' if h % 4 == 3 else '') + ('-f64' if h % 5 == 2 else '') + ('-ups' if h % 7 in (2, 5) else '')
         crop = 'slicing' if h % 2 == 0 else 'per_pixel'
         bc = int(rng.integers(1, nmax + 2))
         prefill = float(rng.choice([0.0, 7.5, np.nan, 1e30, -3.0]))
@@ -215,7 +260,7 @@ def run(ctx):
                           mk_replay(desc, shape, nmax, small, method, crop, bc, prefill, f2 or fail),
                           signature=('slicing back-end: result depends on previous buffer contents' if crop == 'slicing' else fail))
         # (K) the stateless model against the LAST call of the dirty history (small frames only)
-        if shape[0] <= 10 and shape[1] <= 10 and len(items) < ctx.n(10, 60) and np.isfinite(prefill):
+        if shape[0] <= 10 and shape[1] <= 10 and len(items) < ctx.n(10, 60) and np.isfinite(prefill) and 'ups' not in method:      # (the model has no DFT upsampling)
             try:
                 res = run_history(pattern, shape, nmax, calls, method, crop, bc, prefill, True)
                 items.append(dict(pattern=pattern, desc=desc, ints=calls[-1]['ints'], one=1, peaks=calls[-1]['peaks'], method=method.split('-')[0],
@@ -236,6 +281,13 @@ def run(ctx):
         if fail:
             ctx.violation('input', 'result depends on frames of other shapes processed before: ' + fail,
                           {'kind': 'history', 'call': 'process_frame_full/fast over frames of several shapes', 'args': {'pattern': desc, 'cross_shape': {'h': h, 'k': k, 'upsample': ups, 'seed': sd}}, 'failure': fail})
+            break
+    for k in range(ctx.n(12, 100)):
+        sd = int(rng.integers(0, 2 ** 31))
+        fail = batch_twice_failure(sd)
+        ctx.count(4, key=('batch twice', sd))
+        if fail:
+            ctx.violation('input', fail, {'kind': 'history', 'call': 'process_frames_full / process_frames_fast twice on one stack', 'args': {'batch_twice_seed': sd}, 'failure': fail})
             break
     # pattern objects and matchers re-used across queries
     nobj = 0
